@@ -512,3 +512,33 @@ Example name_clash_refuted :
   (* ... and does not in the other registration order *)
   runs_a (exec_forest cfg_plain [] None (build_tree [w_bench_a] [w_fn_group; w_mod_group])) = false.
 Proof. repeat split; vm_compute; reflexivity. Qed.
+
+(** ** F8, second member: two generic functions of the same name under one
+    module path (nested in different function bodies: [module_path!()] omits the
+    enclosing function) share one node and one group slot.  A function that
+    leaves a field unset takes the other's setting when that one is registered
+    last; if both set the field, each leaf's own options decide and nothing leaks. *)
+Definition s_gen (gid eid : N) (ty : str) (o : option opts) : group_entry :=
+  {| g_id := gid; g_meta := {| m_display := w_f; m_raw := w_f; m_modpath := w_c; m_line := gid; m_col := 1; m_opts := o |};
+     g_generic := Some [[ {| ge_id := eid; ge_runner := RPlain; ge_kind := GType ty |} ]] |}.
+Definition s_first : group_entry := s_gen 20 1 [105] (Some w_opts_ign).                (* ignore = true *)
+Definition s_second_unset : group_entry := s_gen 21 2 [106] None.                       (* no options *)
+Definition s_second_set : group_entry :=
+  s_gen 21 2 [106] (Some {| o_ignore := Some false; o_sample_count := None |}).         (* ignore = false *)
+Definition runs_id (id : N) (l : list xcase) : bool := existsb (fun x => fst (fst x) =? id) l.
+
+Example same_name_generic_refuted :
+  (* as written: the second function's benchmark is not ignored *)
+  runs_id 2 (flat_exec cfg_plain [] [s_first; s_second_unset]) = true /\
+  (* the tree agrees when the second function is registered last ... *)
+  runs_id 2 (exec_forest cfg_plain [] None (build_tree [] [s_first; s_second_unset])) = true /\
+  (* ... and ignores it when the first one is *)
+  runs_id 2 (exec_forest cfg_plain [] None (build_tree [] [s_second_unset; s_first])) = false.
+Proof. repeat split; vm_compute; reflexivity. Qed.
+
+Example same_name_generic_both_set :
+  runs_id 2 (exec_forest cfg_plain [] None (build_tree [] [s_first; s_second_set])) = true /\
+  runs_id 2 (exec_forest cfg_plain [] None (build_tree [] [s_second_set; s_first])) = true /\
+  runs_id 1 (exec_forest cfg_plain [] None (build_tree [] [s_first; s_second_set])) = false /\
+  runs_id 1 (exec_forest cfg_plain [] None (build_tree [] [s_second_set; s_first])) = false.
+Proof. repeat split; vm_compute; reflexivity. Qed.
